@@ -28,6 +28,16 @@ class HarnessProblem(Exception):
 def mutate(g, raw, side):
     """Returns (kind, mutated bytes)."""
     lines = raw.split(b"\r\n")
+    import random as _r
+    sg = _r.Random(hashlib.sha256(repr(g.getstate()).encode()).hexdigest())      # side generator: the other mutations stay as they were
+    if sg.random() < 0.08:
+        # an otherwise well-formed message whose Content-Type has unusual parameters (no '=', empty, quoted ';')
+        ct = sg.choice([b"text/plain;", b"text/plain; charset", b"text/plain; charset=utf-8;", b'multipart/form-data; boundary="a;b"', b"text/plain;;",
+                        b"; charset=utf-8", b"text/plain; =x", b"application/json; charset", b"text/plain; charset=", b"application/json;charset"])
+        head, sep, body = raw.partition(b"\r\n\r\n")
+        head_l = [l for l in head.split(b"\r\n") if not l.lower().startswith(b"content-type")]
+        head_l.insert(1, b"Content-Type: " + ct)
+        return "ctype-params", b"\r\n".join(head_l) + sep + body
     kind = g.choice(["startline", "startline", "header-nocolon", "chunk-size", "chunk-term", "length", "random", "truncate", "flip", "longline",
                      "header-garbage", "dup-crlf", "many-headers"] + (["continue", "redirect-noloc", "redirect-badloc", "sse-badutf8", "json"] if side == "response" else []))
     if kind == "json":           # a JSON response whose declared charset or body cannot be decoded / deserialised
@@ -191,7 +201,8 @@ class C32(Check):
                 raise RuntimeError("harness: duo did not connect")
             pat, valet = duo.patron, duo.valet
             for i in range(n):
-                pat.request(method="POST" if i % 2 else "GET", path="/r%d" % i, body=(b"body%d" % i) if i % 2 else None)
+                # (a shape drawn as the answer to a HEAD request is asked for with HEAD, as in C31)
+                pat.request(method=shapes[i].get("method") or ("POST" if i % 2 else "GET"), path="/r%d" % i, body=(b"body%d" % i) if i % 2 and not shapes[i].get("method") else None)
             peers = []
             for b in plan["bad"]:
                 raw = SimSocket(net, "peer")
